@@ -240,6 +240,13 @@ func (c *evalCtx) eval(x ast.Expr) Value {
 }
 
 func (c *evalCtx) selectField(base Value, name string, x ast.Expr) Value {
+	if iv, ok := base.(VIface); ok {
+		if p, isPtr := iv.V.(VPtr); isPtr {
+			base = p // a concrete pointer boxed in an interface (e.g. a Gate)
+		} else if st, isSt := iv.V.(VStruct); isSt {
+			base = st
+		}
+	}
 	base = c.deref(base)
 	if st, ok := base.(VStruct); ok && st.T != nil {
 		for i := 0; i < st.T.NumFields(); i++ {
@@ -265,9 +272,17 @@ func (c *evalCtx) selectField(base Value, name string, x ast.Expr) Value {
 func (c *evalCtx) evalBinary(n *ast.BinaryExpr) Value {
 	switch n.Op {
 	case token.LAND:
-		return VBool{And(c.evalBool(n.X), c.evalBool(n.Y))}
+		l := c.evalBool(n.X)
+		if l.IsFalse() {
+			return VBool{l} // short-circuit: the right operand may not be well-formed here
+		}
+		return VBool{And(l, c.evalBool(n.Y))}
 	case token.LOR:
-		return VBool{Or(c.evalBool(n.X), c.evalBool(n.Y))}
+		l := c.evalBool(n.X)
+		if l.IsTrue() {
+			return VBool{l}
+		}
+		return VBool{Or(l, c.evalBool(n.Y))}
 	}
 	l := c.eval(n.X)
 	r := c.eval(n.Y)
@@ -448,7 +463,47 @@ func (c *evalCtx) evalCall(n *ast.CallExpr) Value {
 		}
 		panic(execError{fmt.Sprintf("contract: len of %T", v)})
 	case "implies":
-		return VBool{Implies(c.evalBool(n.Args[0]), c.evalBool(n.Args[1]))}
+		ante := c.evalBool(n.Args[0])
+		if ante.IsFalse() {
+			return VBool{BoolC(true)} // the consequent may not even be well-formed in this case
+		}
+		return VBool{Implies(ante, c.evalBool(n.Args[1]))}
+	case "inre":
+		// inre(s, "go regexp"): the whole string s is in the language of the pattern
+		pat, ok := c.eval(n.Args[1]).(VStr)
+		if !ok || pat.T.Op != "sconst" {
+			panic(execError{"contract: inre needs a literal pattern"})
+		}
+		cr, err := compileGoRegex(pat.T.Name)
+		if err != nil {
+			panic(execError{"contract: " + err.Error()})
+		}
+		return VBool{StrInRe(c.eval(n.Args[0]).(VStr).T, cr.full)}
+	case "concat":
+		var parts []*Term
+		for _, a := range n.Args {
+			parts = append(parts, c.eval(a).(VStr).T)
+		}
+		return VStr{StrConcat(parts...)}
+	case "splitlen":
+		return VInt{App("str.splitlen", SInt, c.eval(n.Args[0]).(VStr).T, c.eval(n.Args[1]).(VStr).T)}
+	case "splitpiece":
+		return VStr{App("str.splitpiece", SStr, c.eval(n.Args[0]).(VStr).T, c.eval(n.Args[1]).(VStr).T, c.intOf(c.eval(n.Args[2])))}
+	case "trimspace":
+		return VStr{App("str.trimspace", SStr, c.eval(n.Args[0]).(VStr).T)}
+	case "toint":
+		return VInt{StrToInt(c.eval(n.Args[0]).(VStr).T)}
+	case "strlen":
+		return VInt{intern(&Term{Op: "str.len", Args: []*Term{c.eval(n.Args[0]).(VStr).T}, Sort: SInt})}
+	case "dyntype":
+		v := c.eval(n.Args[0])
+		if iv, ok := v.(VIface); ok {
+			if iv.Dyn == nil {
+				return VStr{StrC("nil")}
+			}
+			return VStr{StrC(types.TypeString(iv.Dyn, func(p *types.Package) string { return p.Name() }))}
+		}
+		panic(execError{fmt.Sprintf("contract: dyntype of %T", v)})
 	case "iff":
 		return VBool{Eq(c.evalBool(n.Args[0]), c.evalBool(n.Args[1]))}
 	case "ite":
